@@ -30,6 +30,7 @@ gen.SEEDS.setdefault("empty_cols", [
                       _c("e2", "Any", "", isFormula=True), _c("e3", "Text", "", isFormula=True),
                       _c("f", "Any", "$n + 1 if $n is not None else None"),
                       _c("t", "Int", "($t or 0) + 1", isFormula=False, recalcWhen=2)]]],
+  [["UpdateRecord", "_grist_Tables_column", 8, {"recalcWhen": 2}]],   # A.t: on manual updates
   [["BulkAddRecord", "A", [None, None, None], {"n": [1, 2, 2], "s": ["a", "b", "a"]}]],
   [["CreateViewSection", 1, 0, "record", [3], None]],          # summary by s
 ])
@@ -114,7 +115,11 @@ class C31Monitor(explore.Monitor):
   length = 10
 
   def start(self, e, seed_name):
-    return {}
+    return {"classes": {}}
+
+  def finish(self, st, e):
+    SINK.put(st["classes"])
+    return []
 
   def gen_bundle(self, st, e, g):
     rng = g.rng
@@ -162,19 +167,25 @@ class C31Monitor(explore.Monitor):
     def bad(clause, i, why):
       out.append((clause, {"index": i, "action": stored[i], "direct": direct[i], "why": why,
                            "stored": stored, "direct_flags": direct}))
+    def count(what, i):
+      key = "%s: %s" % (what, "direct" if direct[i] else "non-direct")
+      st["classes"][key] = st["classes"].get(key, 0) + 1
     for i, a in enumerate(stored):
       name, t = a[0], a[1]
       if name in SCHEMA_ACTIONS or (isinstance(t, str) and t.startswith("_grist_")):
+        count("schema/metadata action (empty-column conversion)", i)
         if direct[i]: bad("C31.empty_column_conversion_not_direct", i,
                           "schema / metadata action in a bundle of plain record edits")
         continue
       kind = kinds.get(t)
       if kind == "summary":
+        count("record action on a summary table", i)
         if direct[i]: bad("C31.summary_rows_not_direct", i, "record action on a summary table")
         continue
       if kind != "ordinary":
         continue
       if name in ("AddRecord", "BulkAddRecord", "RemoveRecord", "BulkRemoveRecord", "ReplaceTableData"):
+        count("rows added/removed on an ordinary table", i)
         if not direct[i]: bad("C31.user_edits_direct", i, "rows added/removed on an ordinary table")
         continue
       if name in ("UpdateRecord", "BulkUpdateRecord"):
@@ -185,6 +196,7 @@ class C31Monitor(explore.Monitor):
           pisf, pf = pre.get((t, c), (isf, f))
           return bool(f) and bool(pf) and (t, c) not in named       # trigger column, not named
         if cols and all(is_calc(c) for c in cols):
+          count("formula-result update on an ordinary table", i)
           if direct[i]: bad("C31.calc_not_direct", i, "only formula / unnamed trigger columns")
           continue
         for c, v in cols.items():
@@ -193,9 +205,13 @@ class C31Monitor(explore.Monitor):
           if pisf or pf or isf or f or (t, c) not in named:
             continue                                                 # not a plain data column
           vals = v if name == "BulkUpdateRecord" else [v]
-          if any(same_value(x, u) for x in vals for u in named[(t, c)]) and not direct[i]:
-            bad("C31.user_edits_direct", i, "writes %s.%s with a value the user gave" % (t, c))
+          if any(same_value(x, u) for x in vals for u in named[(t, c)]):
+            count("update carrying the user's value on an ordinary table", i)
+            if not direct[i]:
+              bad("C31.user_edits_direct", i, "writes %s.%s with a value the user gave" % (t, c))
             break
+        else:
+          count("other update on an ordinary table (no obligation)", i)
     return out[:1]
 
   def nontrivial(self, st, bundle, group, exc):
@@ -204,6 +220,10 @@ class C31Monitor(explore.Monitor):
   def classify(self, clause, detail, bundle, history):
     a = detail.get("action") or ["?"]
     return "%s: %s %s" % (clause, a[0], "direct" if detail.get("direct") else "non-direct")
+
+
+from checks import C02
+SINK = C02.StatSink("VERIF_C31_STATS")
 
 
 def main():
@@ -222,7 +242,10 @@ def main():
   rep.coverage["rule"] = ("one evaluation = one bundle applied to the real engine with every stored "
                           "action of the reply classified; non-trivial = the reply has stored "
                           "actions")
-  explore.explore(rep, "checks.C31", "C31Monitor")
+  C02.tune_explore()
+  SINK.open()
+  explore.explore(rep, "checks.C31", "C31Monitor", n_quick=144, budget_quick_s=45)
+  rep.coverage["stored_actions_classified"] = SINK.total()
   return rep.finish()
 
 
